@@ -94,6 +94,9 @@ def cases(tier):
             i += 1
 
 
+    yield dict(kind="history", tier=tier, idx=i)
+
+
 def materialise(cfg):
     mols = [tuple(m) for m in cfg["mols"]]
     types = sorted({n for n, _ in mols})
@@ -193,7 +196,50 @@ def judge(cfg, sysd, exp_box, res, choices):
     return viols
 
 
+HIST_SYSTEMS = {
+    "plain": dict(types=["CH4", "W"], molecules=[("CH4", 1), ("W", 2)], box=[4.0, 4.5, 5.0], grid=GRID, kwargs=dict(nrewind=2, maxiter=5)),
+    "ligand+start": dict(types=["CH4", "W"], molecules=[("CH4", 1), ("W", 2)], box=[4.0, 4.5, 5.0], grid=GRID,
+                         kwargs=dict(nrewind=2, maxiter=5, ligands=[["CH4#0-B#2", "W#1"]], start=["CH4-S#3"])),
+    "cyclic": dict(types=["RING4", "W"], molecules=[("W", 1), ("RING4", 1)], box=[4.0, 4.5, 5.0], grid=GRID,
+                   kwargs=dict(nrewind=2, maxiter=5, cycles=["RING4"], cycle_tol=0.3)),
+    "split+ignore": dict(types=["MIX3", "W"], molecules=[("MIX3", 1), ("W", 1)], box=[4.0, 4.5, 5.0], grid=GRID,
+                         volumes={"T0": 0.5, "T1": 0.5}, bld_extra=["[ volumes ]", "T0 0.5", "T1 0.5"],
+                         kwargs=dict(nrewind=2, maxiter=5, split=["T:T0-x,z:T1-y"])),
+    "rebuild-res": dict(types=["CH4"], molecules=[("CH4", 2)], box=[4.0, 4.5, 5.0], grid=GRID,
+                        kwargs=dict(nrewind=2, maxiter=5, build_res=["B"])),
+}
+
+
+def check_history(cfg):
+    """gen_coords called several times in one process (as from a script): every ordered pair (X, Y) of five option mixes is
+    run as X, Y, X; the two runs of X write the same file and make the same placements"""
+    viols, evals, keys = [], 0, []
+    names = sorted(HIST_SYSTEMS)
+    for x in names:
+        for y in names:
+            if x == y:
+                continue
+            outs = []
+            for which in (x, y, x):
+                res = G.run_gen_coords(json.loads(json.dumps(HIST_SYSTEMS[which])), Chooser([]))
+                evals += 1
+                outs.append((repr(res["exc"]), None if not res["gro"] else res["gro"][2], repr(res["events"])))
+            case1 = dict(kind="history1", pair=[x, y])
+            if cfg.get("pair") and cfg["pair"] != [x, y]:
+                continue
+            if outs[0][0] != "None":
+                viols.append(dict(assertion="gen_coords-accepts-valid-input", tags=["history"], message=f"{x}: {outs[0][0]}", case=case1, detail={}))
+            elif outs[0] != outs[2] and len(viols) < 20:
+                what = "exception " + outs[2][0] if outs[2][0] != "None" else ("the written file differs" if outs[0][1] != outs[2][1] else "the placements differ")
+                viols.append(dict(assertion="independent-of-earlier-calls", tags=["history"],
+                                  message=f"gen_coords on '{x}', then on '{y}', then on '{x}' again in one process: second run of '{x}': {what}", case=case1, detail={}))
+            keys.append(f"hist:{x}:{y}")
+    return dict(evals=evals, keys=keys, violations=viols, stats={"history_runs": evals}, sample=dict(kind="history", pairs=len(keys)))
+
+
 def run_case(cfg):
+    if cfg.get("kind") in ("history", "history1"):
+        return check_history(cfg)
     sysd, exp_box = materialise(cfg)
     if "choices" in cfg:
         res = run_exec(sysd, Chooser(cfg["choices"]), cfg.get("fault"))
